@@ -16,7 +16,11 @@ deriving Repr
     (safe direction: an unknown module is pre-cache). -/
 def postOrInfraModules : List String :=
   ["__main__", "main", "config_parser", "options", "dmypy_server", "find_sources", "report", "stubgen",
-   "stubtest", "stubutil", "suggestions", "inspections"]
+   "stubtest", "stubutil", "suggestions", "inspections",
+   -- mypy/errors.py is recorded per function: these run when messages are printed (after cached error
+   -- tuples have been loaded) or on the crash path; every other function of errors.py is pre-cache
+   "errors:format_messages", "errors:format_messages_default", "errors:report_internal_error",
+   "errors:find_shadow_file_mapping"]
 
 /-- options that select the cache directory itself (`_cache_dir_prefix`): a different value is a different cache -/
 def partitionOpts : List String := ["python_version"]
@@ -55,8 +59,6 @@ def exempt : List (String × String) := [
   ("no_silence_site_packages", "changes ignore_all of a module, which validate_meta compares"),
   ("custom_typing_module", "test-only replacement of the typing module"),
   -- applied when messages are formatted, after cached error tuples are loaded
-  ("hide_error_codes", "applied by format_messages after load"), ("show_column_numbers", "applied by format_messages after load"),
-  ("show_error_end", "applied by format_messages after load"), ("pretty", "applied by format_messages after load"),
   ("many_errors_threshold", "only consulted while errors of the current run accumulate after import errors; see DESIGN (searched)"),
   -- internal, no way to set them from the command line or a config file
   ("include_docstrings", "stubgen only"),
